@@ -111,8 +111,9 @@ def check(run, views, tier):
         if "client" not in F.features and "async-client" not in F.features:
             run.note("no client compiled under cfg %s" % cfg)
             continue
-        from .c11 import check_ca_cert_setter
+        from .c11 import check_ca_cert_setter, check_config_writers
         check_ca_cert_setter(run, F)
+        check_config_writers(run, F)       # incl.: the builder stores the target uri as given (scheme decides whether TLS is used at all)
         # ---- (1a) enumerate danger sites in the whole crate ------------------------------
         danger_nodes = {}   # id(node) -> (callee, body)
         verifier_nodes = {}
